@@ -86,6 +86,14 @@ def check_terms(chk, progs, args_of=lambda g: [(n, v) for (n, _, v) in g.params]
             g.ast = None
             if on_reject:
                 on_reject(g, a)
+    # every dumped AST must satisfy the typing judgement the theorems assume (instance of their hypothesis)
+    wl = ["(mwt %s %s %s)" % (ast_main(g.ast), bindings_sx(args_of(g)), ast_witnesses(g.ast)) for g in accepted]
+    for g, w in zip(accepted, model("core", wl)):
+        chk.count("wt." + w[:5])
+        if w != "true":
+            chk.violation({"class": "ast-not-well-typed", "what": "%s || %s" % (w[:100], g.text[:300])},
+                          {"program": g.text, "model_wt": w, "ast": g.ast[:3000],
+                           "broken": "the typed AST produced by ast.rs for an accepted program does not satisfy Lang/WT.v (hypothesis of compile_correct / compile_typed): front end accepted an ill-typed program (C03/C04) or WT.v is too strict"})
     for dbg in dbgs:
         tl = ["(term %s %s %d)" % (quote(g.text), bindings_sx(args_of(g)), dbg) for g in accepted]
         ml = ["(mterm %s %s %d)" % (ast_main(g.ast), bindings_sx(args_of(g)), dbg) for g in accepted]
@@ -124,6 +132,11 @@ def ast_main(ast_text):
                 return s[start:i + 1]
         i += 1
     raise ValueError(ast_text[:100])
+
+
+def ast_witnesses(ast_text):
+    e = parse_sx(ast_text)
+    return sx(e[3][1:])
 
 
 def classify_impl(x):
